@@ -292,8 +292,8 @@ pub fn strategy() -> BoxedStrategy<Case> {
 pub fn streams() -> Vec<Box<dyn AnyStream>> {
     vec![Box::new(Stream::<Case> {
         name: "conversions",
-        quick: 25_000,
-        thorough: 800_000,
+        quick: 40_000,
+        thorough: 2_000_000,
         source: Source::Gen(Box::new(strategy)),
         check: Box::new(check),
     })]
